@@ -80,8 +80,17 @@ def build_gateway(seed, workdir, asan=False, repo_matlab_h=None, void_static=Fal
     if asan:
         cmd[1:1] = ['-fsanitize=address,undefined', '-fno-omit-frame-pointer',
                     '-fno-sanitize-recover=undefined']
-    subprocess.run(cmd, check=True)
+    r = subprocess.run(cmd, capture_output=True, text=True)
+    if r.returncode != 0:
+        # the generated gateway for a valid interface file is not valid C++: reported with the interface as the input
+        errs = [l for l in r.stderr.splitlines() if 'error' in l][:6]
+        raise GatewayDoesNotCompile('generated gateway does not compile for interface:\n%s\ncompiler: %s' % (
+            open(os.path.join(gdir, module + '.i')).read(), '\n'.join(errs)))
     return U, gdir, exe
+
+
+class GatewayDoesNotCompile(Exception):
+    pass
 
 
 # ---------------------------------------------------------------------------------------------
@@ -120,6 +129,7 @@ class Sim:
         self.pents.append('__wrap_shared_ptr_void__:0:pobj')
         self.stats = collections.Counter()
         self.depths = collections.Counter()
+        self.copies, self.copy_log = [], {}      # copies made by the current step; step index -> [(new, origin)]
 
     # -- class helpers
     def chain(self, k):
@@ -144,9 +154,12 @@ class Sim:
         return self.objs[o]['refs'] > 0 or self.objs[o]['ext'] > 0
 
     # -- effects
-    def new_obj(self, dyn, ext):
-        self.objs.append({'dyn': dyn, 'refs': 0, 'ext': ext})
-        return len(self.objs) - 1
+    def new_obj(self, dyn, ext, copy_of=None):
+        o = len(self.objs)
+        self.objs.append({'dyn': dyn, 'refs': 0, 'ext': ext, 'origin': o if copy_of is None else self.objs[copy_of]['origin']})
+        if copy_of is not None:
+            self.copies.append((o, self.objs[o]['origin']))
+        return o
 
     def new_handle(self, cls, o):
         self.handles.append({'cls': cls, 'obj': o, 'alive': True, 'stale': False})
@@ -159,7 +172,16 @@ class Sim:
         if t == 'string':
             w = ''.join(self.rng.choice('abcxyz') for _ in range(self.rng.randint(1, 4)))
             return 's' + w, 's' + w
+        if t == 'size_t':
+            v = self.rng.choice([0, 7, 2**31, 2**32 + 5, 2**53 + 1, 2**56 + 3, 0x7800000000000001 >> 1, 2**61 - 1,
+                                 self.rng.randrange(2**53, 2**61)])
+            kind = self.rng.choice('ul' if v >= 2**53 else 'iul')
+            self.stats['size_t_arg_' + ('above_2^53' if v >= 2**53 else 'small')] += 1
+            return '%s%d' % (kind, v), 'i%d' % v
         v = self.rng.randint(0, 9)
+        if t == 'int' and self.rng.random() < 0.15:
+            self.stats['int_arg_as_int64'] += 1
+            return 'l%d' % v, 'i%d' % v       # int64(v) where an int is expected
         return 'i%d' % v, 'i%d' % v
 
     def gen_args(self, params, allow_defaults=True):
@@ -207,8 +229,9 @@ class Sim:
             if r[2] != r[1]:
                 self.stats['derived_returned_as_base'] += 1
         elif r[0] == 'copy':
-            tmp = self.new_obj(r[1], 0)
-            o = self.new_obj(r[1], 0)
+            src = self.handles[hs[r[2]]]['obj']
+            tmp = self.new_obj(r[1], 0, copy_of=src)
+            o = self.new_obj(r[1], 0, copy_of=tmp)
             ms += ['alloc%d' % r[1], 'alloc%d' % r[1], 'ret%d.%d' % (o, r[1]),
                    'drop%d' % o, 'drop%d' % tmp]
             new_handles.append((r[1], o))
@@ -390,7 +413,19 @@ class Sim:
             self.objs[o]['ext'] += 1
             self.stats['hold'] += 1
         r = e['ret']
-        if r is not None and r not in gen_iface.SCALARS:
+        if r is not None and r not in gen_iface.SCALARS and r[0] == 'pair' and r[1][0] == 'copy':
+            # pair<T, U> by value: the library builds the pair (two copies, first then second), the wrapper copies
+            # each member into a fresh shared_ptr, then the pair dies
+            (_, t, i), (_, u, j) = r[1], r[2]
+            a = self.new_obj(t, 0, copy_of=self.handles[hs_[i]]['obj'])
+            b = self.new_obj(u, 0, copy_of=self.handles[hs_[j]]['obj'])
+            x = self.new_obj(t, 0, copy_of=a)
+            y = self.new_obj(u, 0, copy_of=b)
+            micros += ['alloc%d' % t, 'alloc%d' % u, 'alloc%d' % t, 'ret%d.%d' % (x, t), 'drop%d' % x,
+                       'alloc%d' % u, 'ret%d.%d' % (y, u), 'drop%d' % y, 'drop%d' % b, 'drop%d' % a]
+            newh += [(t, x), (u, y)]
+            self.stats['pair_by_value_return'] += 1
+        elif r is not None and r not in gen_iface.SCALARS:
             parts = [r[1], r[2]] if r[0] == 'pair' else [r]
             for p in parts:
                 micros += self.ret_micros(p, e, hs_, newh)
@@ -423,6 +458,10 @@ def gen_history(U, seed, nops, void_path=True, void_ns=False):
         if r:
             dlines += r[0]
             mcmds += r[1]
+        if sim.copies:
+            if r:
+                sim.copy_log[len(dlines) - 1] = list(sim.copies)
+            del sim.copies[:]
     final_unload = rng.random() < 0.6
     if final_unload:
         r = sim.unload()
@@ -498,8 +537,12 @@ def main():
     samples = []
     for g in range(args.gateways):
         gseed = args.seed * 1000 + g
-        U, gdir, exe = build_gateway(gseed, args.workdir, asan=args.asan, repo_matlab_h=args.matlab_h,
-                                     void_static=args.void_static)
+        try:
+            U, gdir, exe = build_gateway(gseed, args.workdir, asan=args.asan, repo_matlab_h=args.matlab_h,
+                                         void_static=args.void_static)
+        except GatewayDoesNotCompile as ex:
+            failures.append(('gw%d' % gseed, str(ex)))
+            continue
         print('[c11] gateway %s: classes %s, %d entities (build %.1fs)' % (
             U['module'], ' '.join('%s%s%s' % (c['matlab'], '<' + U['classes'][c['base']]['matlab']
                                               if c['base'] is not None else '',
@@ -524,7 +567,25 @@ def main():
             head, *obs = ans.split(' | ')
             if 'valid=1' not in head or 'df=0' not in head:
                 failures.append((tag, 'generated history is not a ValidSession: ' + head))
-            impl = [l for l in out if not l.startswith('end ')]
+            got_copies, impl, first_obs = {}, [], []
+            for l in out:
+                if l == 'op':
+                    first_obs.append(len(impl))
+                elif l.startswith('copies '):
+                    got_copies[len(impl)] = [tuple(int(x) for x in c.split('<')) for c in l[7:].split(',') if c]
+                elif not l.startswith('end '):
+                    impl.append(l)
+            bad = supplied_values_oracle(dl, impl, first_obs)
+            if bad:
+                failures.append((tag, bad))
+            got_flat = [c for k in sorted(got_copies) for c in got_copies[k]]
+            want_flat = [c for k in sorted(sim.copy_log) for c in sim.copy_log[k]]
+            if got_flat != want_flat:
+                j = next((i for i in range(min(len(got_flat), len(want_flat))) if got_flat[i] != want_flat[i]),
+                         min(len(got_flat), len(want_flat)))
+                k = next((k for k in sorted(sim.copy_log) if j < sum(len(sim.copy_log[q]) for q in sim.copy_log if q <= k)), None)
+                failures.append((tag, 'a returned copy is not a copy of the declared source (serial<origin): call %s made copies %s, declared %s'
+                                 % (dl[k] if k is not None and k < len(dl) else '?', got_flat[j:j + 4], want_flat[j:j + 4])))
             endl = [l for l in out if l.startswith('end ')]
             steps += len(obs)
             if impl != obs:
@@ -562,6 +623,49 @@ def main():
     print('[c11] PASS: implementation and model agree on every step (%.1fs)%s%s' % (
         time.time() - t0, ', ASan/UBSan clean' if args.asan else '',
         ', valgrind: no definite leak' if args.valgrind else ''))
+
+
+def supplied_values_oracle(dl, impl, first_obs):
+    """The property's own observation, independent of the model: the C++ entity reached by a call / static / func /
+    new operation received the scalar values the session supplied (the library records `name(values)`)."""
+    for k, line in enumerate(dl):
+        tok = line.split(' ')
+        skip = {'call': 3, 'static': 3, 'func': 2, 'new': 2}.get(tok[0])
+        if skip is None or k >= len(first_obs):
+            continue
+        lo, hi = first_obs[k], first_obs[k + 1] if k + 1 < len(first_obs) else len(impl)
+        supplied = tok[skip:]
+        if tok[0] == 'call':
+            name = tok[1]
+        elif tok[0] == 'static':
+            name = tok[2]
+        elif tok[0] == 'func':
+            name = tok[1]
+        else:
+            name = tok[1].split('.')[-1]
+        want = []
+        for t in supplied:
+            want.append(str(int(t[1:])) if t[0] in 'iul' else "'%s'" % t[1:] if t[0] == 's' else None)
+        if not any(w is not None for w in want):
+            continue
+        found = False
+        for obs in impl[lo:hi]:
+            if obs.startswith('error='):
+                found = True      # rejected calls are the model's business
+                continue
+            m = re.match(r'call=([^;]*);', obs)
+            for entry in (m.group(1).split('|') if m else []):
+                m2 = re.match(r'(?:\w+::)*(\w+)\((.*)\)$', entry)
+                if not m2 or m2.group(1) != name:
+                    continue
+                got = m2.group(2).split(',') if m2.group(2) else []
+                if tok[0] == 'call':
+                    got = got[1:]          # the receiver
+                if len(got) >= len(want) and all(w is None or g == w for g, w in zip(got, want)):
+                    found = True
+        if not found and hi > lo:
+            return 'the C++ entity did not receive the supplied argument values: operation `%s` observed as %s' % (line, impl[lo:hi])
+    return None
 
 
 def replay_finding(U, gdir, exe, args):
